@@ -229,6 +229,12 @@ BaseIter(_mesh, _ref_h, _max_laps) {
 
     assert(_ref_h.is_valid());
 
+    if(!_mesh->has_face_bottom_up_incidences()) {
+        cur_index_ = 0;
+        BaseIter::valid(false);
+        return;
+    }
+
     HexahedralMeshTopologyKernel::Cell cell = _mesh->cell(_ref_h);
     assert(cell.halffaces().size() == 6);
 
